@@ -65,6 +65,9 @@ func vTableFor(tbl int) vTable {
 	if tbl >= 5000 {
 		return vGenMediaTable(tbl - 5000)
 	}
+	if tbl >= 3000 {
+		return vGenRootTable(tbl - 3000)
+	}
 	if tbl >= 1000 {
 		return vGenTable(tbl - 1000)
 	}
